@@ -3,7 +3,7 @@
 # Confirms a seeded change in its scratch worktree /tmp/seed-<Cxx> (tests pass, demo passes without / fails with),
 # then runs the quick check(s) against the changed tree. Leaves the worktree clean.
 P=$1; I=$2; shift 2
-W=/tmp/seed-$P
+W=${SEED_PREFIX:-/tmp/seed2-}$P
 HERE="$(cd "$(dirname "${BASH_SOURCE[0]}")/.." && pwd)"
 git -C $W checkout -q -- src
 echo "== demo on clean tree"; (cd $W/_seed && PYTHONPATH=$W/src timeout 300 /venv/bin/python demo$I.py >/dev/null 2>&1; echo "demo rc=$?")
